@@ -26,7 +26,7 @@ PROPS = {
         "text": "CRC-32 single-byte-change detection proved for all inputs; alteration sweep on real archives",
     },
     "C06": {
-        "lean": ["PnaVerif.Props.Consts", "PnaVerif.Props.C06"],
+        "lean": ["PnaVerif.Props.Consts", "PnaVerif.Props.C06", "PnaVerif.Props.C06Archive"],
         "families": ["truncate"],
         "trusted": COMMON_TRUST,
         "text": "every proper prefix of a chunk is eof (proved); exhaustive cut positions on real archives",
@@ -40,7 +40,7 @@ PROPS = {
     },
     "C18": {
         "lean": ["PnaVerif.Props.Consts", "PnaVerif.Props.C18"],
-        "families": ["chunk"],
+        "families": ["chunk", "entry", "roundtrip", "split"],
         "trusted": COMMON_TRUST,
         "text": "bytes_len = encoded length (proved); returned counts compared with bytes written",
     },
@@ -108,5 +108,13 @@ PROPS = {
         "cli": True,
         "trusted": COMMON_TRUST + ["ignore's walker (which paths exist, in which order) enters as an oracle answer via the collect_items hook", "file mtimes compared as the kernel reports them"],
         "text": "append/update/delete specifications and the history invariant proved over ordered entry lists; real pna histories on an evolving tree compared with the model after every step",
+    },
+    "C14": {
+        "lean": ["PnaVerif.Props.Consts", "PnaVerif.Props.C14"],
+        "families": ["roundtrip", "split", "edit", "history"],
+        "cli": True,
+        "ops": {"roundtrip": ["archive.read.stream"], "split": ["split.archive", "multipart.read"], "edit": [], "history": []},
+        "trusted": COMMON_TRUST + CRYPTO_TRUST + ["harness/src/refdec.rs — the independent reader (primitive crates only) is itself unverified test code"],
+        "text": "writer output tokenises into the expected chunk sequence and the strict decoder returns the entries written (proved); every archive/part file produced by the C01/C04/C10/C11 families is decoded by an independent primitive-crate reader",
     },
 }
